@@ -3,6 +3,7 @@ package universe
 import (
 	"context"
 	"path/filepath"
+	"reflect"
 	"testing"
 
 	"deps.dev/util/resolve"
@@ -203,5 +204,214 @@ func TestSelfExtended(t *testing.T) {
 				t.Fatalf("generator options had no effect: %d scenarios with linked advisories, %d dev/test requirements", linked, shared)
 			}
 		})
+	}
+}
+
+// TestSelfFlavours: the guards of TestSelf for Maven universes with qualifier flavours
+// (GenConfig.MavenFlavours): render(parse(v)) = v, the model order is Maven's (Index checks
+// it against the reference comparator of internal/vergram; here also against deps.dev's
+// comparator directly), the client serves every version, the scenario resolves, the reference
+// OSV evaluation agrees with the implementation's predicate, and every flavour occurs among the
+// published and among the required versions.
+func TestSelfFlavours(t *testing.T) {
+	published, required := map[string]int{}, map[string]int{}
+	rapid.Check(t, func(rt *rapid.T) {
+		cfg := DefaultConfig(Maven)
+		cfg.UnknownReqs = false
+		cfg.MavenFlavours = 60
+		s := GenScenario(rt, cfg)
+		ix, err := s.Universe.Index()
+		if err != nil {
+			rt.Fatalf("index: %v", err)
+		}
+		for _, p := range ix.Packages {
+			for i := range p.Versions {
+				if got := p.Versions[i].V.Render(Maven); got != p.Versions[i].Version {
+					rt.Fatalf("render(parse(%q)) = %q", p.Versions[i].Version, got)
+				}
+				published[p.Versions[i].V.FlavourName()]++
+				for j := range p.Versions {
+					if got := semver.Maven.Compare(p.Versions[i].Version, p.Versions[j].Version); got != sgn(i, j) {
+						rt.Fatalf("reference order and deps.dev disagree on %q vs %q: %d vs %d", p.Versions[i].Version, p.Versions[j].Version, sgn(i, j), got)
+					}
+				}
+				for _, d := range p.Versions[i].Deps {
+					if !IsMavenRange(d.Req) {
+						if v, ok := ParseVer(d.Req); ok {
+							required[v.FlavourName()]++
+						}
+					}
+				}
+			}
+		}
+		for _, d := range s.Manifest.Deps {
+			if v, ok := ParseVer(d.Req); ok {
+				required[v.FlavourName()]++
+			}
+		}
+		w, err := s.Materialise(0)
+		if err != nil {
+			rt.Fatalf("materialise: %v", err)
+		}
+		defer w.Close()
+		for _, p := range ix.Packages {
+			vs, err := w.Client.Versions(context.Background(), resolve.PackageKey{System: w.System, Name: p.Name})
+			if err != nil || len(vs) != len(p.Versions) {
+				rt.Fatalf("client versions of %s: %v, %d vs %d", p.Name, err, len(vs), len(p.Versions))
+			}
+			// the matcher of a requirement of the generated forms is the model's
+			for _, v := range p.Versions {
+				for _, req := range []string{v.Version, "[" + v.Version + "]", "[" + v.Version + ",)", "[" + v.Version + "," + Ver{Major: v.V.Major + 1}.Render(Maven) + ")"} {
+					ms, err := w.Client.MatchingVersions(context.Background(), resolve.VersionKey{PackageKey: resolve.PackageKey{System: w.System, Name: p.Name}, Version: req, VersionType: resolve.Requirement})
+					if err != nil {
+						rt.Fatalf("matching versions of %s@%s: %v", p.Name, req, err)
+					}
+					got := map[string]bool{}
+					for _, m := range ms {
+						got[m.Version] = true
+					}
+					for _, o := range p.Versions {
+						want, ok := MavenReqMatches(req, o.V)
+						if !ok {
+							rt.Fatalf("requirement %q outside the model", req)
+						}
+						if IsMavenRange(req) && want != got[o.Version] {
+							rt.Fatalf("%s: requirement %q, version %q: model says %v, deps.dev says %v", p.Name, req, o.Version, want, got[o.Version])
+						}
+					}
+				}
+			}
+		}
+		path, err := w.WriteManifest(s.Manifest)
+		if err != nil {
+			rt.Fatal(err)
+		}
+		if _, err := w.Resolve(context.Background(), path, options.ResolutionOptions{}); err != nil {
+			rt.Fatalf("resolve: %v", err)
+		}
+		for _, o := range s.Vulns {
+			sch, _ := o.ToSchema()
+			for _, p := range ix.Packages {
+				for _, v := range p.Versions {
+					vk := resolve.VersionKey{PackageKey: resolve.PackageKey{System: w.System, Name: p.Name}, Version: v.Version, VersionType: resolve.Concrete}
+					if a, b := Affected(o, Ecosystem(Maven), p.Name, v.Version), verifhooks.IsAffected(sch, vk); a != b {
+						rt.Fatalf("reference evaluator %v, implementation %v on %s@%s for %+v", a, b, p.Name, v.Version, o)
+					}
+				}
+			}
+		}
+	})
+	t.Logf("published versions by flavour: %v", published)
+	t.Logf("soft requirements by flavour: %v", required)
+	for _, f := range []string{"snapshot", "milestone", "final", "jre", "rcN", "prerelease", ""} {
+		if published[f] == 0 || required[f] == 0 {
+			t.Errorf("flavour %q: %d published versions, %d soft requirements on one", f, published[f], required[f])
+		}
+	}
+}
+
+// TestSelfChains: a manifest with a chain of local parent poms (GenConfig.PomChains) reads
+// back, through scalibr's reader, as exactly the flat requirement lists of the model, with the
+// model's root coordinates, and resolves to the same graph as the flat manifest.
+func TestSelfChains(t *testing.T) {
+	chains, depth2, inherit, inAncestor := 0, 0, 0, 0
+	forms := map[string]int{}
+	rapid.Check(t, func(rt *rapid.T) {
+		cfg := DefaultConfig(Maven)
+		cfg.UnknownReqs = false
+		cfg.PomChains = 80
+		cfg.DevShared = 40
+		s := GenScenario(rt, cfg)
+		if s.Manifest.Chain == nil {
+			return
+		}
+		c := s.Manifest.Chain
+		if err := c.Check(); err != nil {
+			rt.Fatal(err)
+		}
+		chains++
+		if len(c.Ancestors) == 2 {
+			depth2++
+			if c.InheritsBelow(1) {
+				inherit++
+			}
+		}
+		from, rel := c.Path, c.ParentRel
+		for _, a := range c.Ancestors {
+			forms[LinkFormName(from, rel, a.Path)]++
+			from, rel = a.Path, a.ParentRel
+		}
+		w, err := s.Materialise(0)
+		if err != nil {
+			rt.Fatalf("materialise: %v", err)
+		}
+		defer w.Close()
+		path, err := w.WriteManifest(s.Manifest)
+		if err != nil {
+			rt.Fatal(err)
+		}
+		dump := func() string {
+			out := ""
+			for _, f := range s.Manifest.Files() {
+				out += "== " + f.Path + "\n" + string(f.Data)
+			}
+			return out
+		}
+		fsys, rel2 := FSFor(path)
+		reqs, err := verifhooks.ReadManifest(w.System, fsys, rel2)
+		if err != nil {
+			rt.Fatalf("read back: %v\n%s", err, dump())
+		}
+		if len(reqs) != len(s.Manifest.Deps)+len(s.Manifest.Management) {
+			rt.Fatalf("read back %d requirements, model has %d+%d\n%s", len(reqs), len(s.Manifest.Deps), len(s.Manifest.Management), dump())
+		}
+		for _, r := range reqs {
+			u := UpdateOf(resultUpdate(r))
+			m := s.Manifest.Find(u)
+			if m == nil || m.Req != r.Req.Version {
+				rt.Fatalf("read back %v: model has %+v\n%s", r.Req, m, dump())
+			}
+			if m.Level > 0 {
+				inAncestor++
+			}
+			if !u.Management {
+				isTest := false
+				for _, g := range r.Groups {
+					isTest = isTest || g == "test"
+				}
+				if isTest != s.Manifest.DevScoped(u.Name, "") {
+					rt.Fatalf("read back %v with groups %v: model says test = %v\n%s", r.Req, r.Groups, !isTest, dump())
+				}
+			}
+		}
+		g1, err := w.Resolve(context.Background(), path, options.ResolutionOptions{})
+		if err != nil {
+			rt.Fatalf("resolve: %v\n%s", err, dump())
+		}
+		if got, want := g1.Nodes[0].Version.Name+"@"+g1.Nodes[0].Version.Version, s.Manifest.Name+"@"+s.Manifest.Version; got != want {
+			rt.Fatalf("root of the resolved graph is %s, the model says %s\n%s", got, want, dump())
+		}
+		flat := s.Manifest.Clone()
+		flat.Chain = nil
+		g2, err := w.ResolveModel(context.Background(), flat, options.ResolutionOptions{})
+		if err != nil {
+			rt.Fatalf("resolve flat: %v", err)
+		}
+		nodes := func(g *resolve.Graph) map[string]bool {
+			out := map[string]bool{}
+			for _, n := range g.Nodes[1:] {
+				out[n.Version.Name+"@"+n.Version.Version] = true
+			}
+			return out
+		}
+		if a, b := nodes(g1), nodes(g2); !reflect.DeepEqual(a, b) {
+			// (the order of the direct dependencies differs between the two renderings, which
+			// may pick other versions where two paths disagree: counted, not failed)
+			rt.Logf("chain and flat manifest resolve to different node sets: %v vs %v", a, b)
+		}
+	})
+	t.Logf("chains %d, depth two %d (inheriting middle pom %d), requirements read from an ancestor %d, link forms %v", chains, depth2, inherit, inAncestor, forms)
+	if chains == 0 || depth2 == 0 || inherit == 0 || inAncestor == 0 || len(forms) < 6 {
+		t.Fatalf("chain generator had no effect")
 	}
 }
